@@ -146,6 +146,13 @@ func (m sortedmap) Entries(buf []*LVal) *LVal {
 			case stringkey:
 				buf[i] = mklist(String(k), v)
 			default:
+				if isKeyword(k) {
+					// A keyword evaluates to itself and is written without a
+					// quote: (sorted-map :height 100) printed its own key as
+					// ':height, and (keys m) answered '(':height).
+					buf[i] = mklist(Symbol(k), v)
+					break
+				}
 				buf[i] = mklist(Quote(Symbol(k)), v)
 			}
 		default:
